@@ -418,7 +418,39 @@ func checkOverlap(c *Check, P *CProgram, r *Rule) {
 			}
 			for _, cp := range callsIn2(arm, "memcpy") {
 				ca := cp.args()
-				if len(ca) != 3 || cp.line > mv.line || (cp.line == mv.line) {
+				if len(ca) != 3 || cp.line == mv.line {
+					continue
+				}
+				if cp.line > mv.line {
+					// the tail is moved first: the bytes written afterwards must not reach into the moved tail's new place
+					b2, ok := memberOf(ca[0], "str")
+					mvBase, ok2 := memberOf(ma[0], "str")
+					if !ok || !ok2 || b2 != base || mvBase != base {
+						continue
+					}
+					cpDst, mvDst, n := offsetFrom(ca[0], base), offsetFrom(ma[0], base), linOf(ca[2])
+					if !cpDst.ok || !mvDst.ok || !n.ok {
+						continue
+					}
+					facts := pathFacts(f.Body, mv)
+					s1 := signOf(mvDst.minus(cpDst), facts)
+					end := lin{coef: map[string]int64{}, ok: true, k: cpDst.k + n.k}
+					for k, v := range cpDst.coef {
+						end.coef[k] += v
+					}
+					for k, v := range n.coef {
+						end.coef[k] += v
+					}
+					s2 := signOf(end.minus(mvDst), facts)
+					key := "C " + f.Name + "|write after move in " + base + "->str"
+					pos := fmt.Sprintf("%s:%d", f.Unit, cp.line)
+					switch {
+					case s2 == 2 || s1 == 2:
+					case s1 >= 0 && s2 > 0:
+						r.AddAt(Bad, key, pos, fmt.Sprintf("%s has moved the tail to offset %s, then %s writes %s bytes at offset %s, which reach into the moved tail: its first bytes are overwritten", mv.text(), mvDst, cp.text(), n, cpDst))
+					default:
+						r.AddAt(OK, key, pos, "the bytes written after the move end at or before the moved tail's new place on this path")
+					}
 					continue
 				}
 				b2, ok := memberOf(ca[0], "str")
